@@ -491,3 +491,40 @@ func AltKindClass(k string) string {
 	}
 	return k
 }
+
+// HasMaskedMask reports whether a value of d can contain a field mask that is itself a masked field (then a third
+// rewrite is needed to make a grand-child field the only witness of the outer mask bit).
+func HasMaskedMask(d *StructDef) bool { return hasMaskedMask(d, map[*StructDef]bool{}) }
+
+func hasMaskedMask(d *StructDef, seen map[*StructDef]bool) bool {
+	if seen[d] {
+		return false
+	}
+	seen[d] = true
+	for i := range d.Fields {
+		f := &d.Fields[i]
+		if f.Mask != nil && f.Mask.Src.Kind == NField && d.Fields[f.Mask.Src.Idx].Mask != nil {
+			return true
+		}
+		if typeHasMaskedMask(f.T, seen) {
+			return true
+		}
+	}
+	return false
+}
+
+func typeHasMaskedMask(t *Type, seen map[*StructDef]bool) bool {
+	switch t.Kind {
+	case KVector, KTuple, KMaybe, KDict, KDictAny:
+		return typeHasMaskedMask(t.Elem, seen)
+	case KStruct:
+		return hasMaskedMask(t.Def, seen)
+	case KUnion:
+		for _, v := range t.U.Variants {
+			if hasMaskedMask(v, seen) {
+				return true
+			}
+		}
+	}
+	return false
+}
